@@ -18,6 +18,7 @@
 #include <vector>
 #include <string>
 #include <memory>
+#include <map>
 #include <functional>
 #include <cstring>
 #include <sanitizer/asan_interface.h>
@@ -54,6 +55,7 @@ int g_next;
 bool g_capture;                               // true only around calls into the code under test
 int g_foreign_free, g_double_free, g_exhausted;
 unsigned char g_fill = 0xA5;                  // what fresh arena memory contains
+bool g_poison_returned = true;                // returned blocks become inaccessible (use after return aborts)
 
 // the block whose hand-back is being watched
 struct Watch { char* p; size_t size; bool armed; int seen; long kept; long not_cd; } g_watch;
@@ -90,7 +92,7 @@ void arena_free(void* mem) {
         }
     }
     g_slot[s].state = 2;
-    ASAN_POISON_MEMORY_REGION(p, STRIDE);
+    if (g_poison_returned) ASAN_POISON_MEMORY_REGION(p, STRIDE);
 }
 void* arena_realloc(void* mem, size_t size) {
     if (mem && !in_arena(mem)) return ::realloc(mem, size);
@@ -110,7 +112,7 @@ void* arena_realloc(void* mem, size_t size) {
 void arena_reset() {
     for (int i = 0; i < g_next; i++) { ASAN_POISON_MEMORY_REGION(g_base + (size_t)i * STRIDE, STRIDE); g_slot[i].state = 0; }
     g_next = 0; g_foreign_free = g_double_free = g_exhausted = 0;
-    g_watch = Watch(); g_fill = 0xA5;
+    g_watch = Watch(); g_fill = 0xA5; g_poison_returned = true;
 }
 void arena_init() {
     size_t b = (size_t)g_raw; b = (b + 63) & ~(size_t)63; while (b % 73) b += 64;
@@ -397,7 +399,10 @@ void pair_case(long idx) {
     // The string cache prints a buffer it does not know with "%s" in its one-time warning (by design, see C18). Under a
     // detector every release reaches it with the user size instead of the allocated size, so the warning always fires;
     // fresh memory is zero-filled in these cases so that the print ends inside the block (padding behind the guard).
-    if (rc.wrap == W_CACHE) g_fill = 0x00;
+    // For the same reason returned blocks stay readable in these cases: realloc of a block with an embedded record through
+    // an entry point that expects a separate one hands the cache a pointer into the block realloc has just returned
+    // (the "interior free" of the notes; after a report that returned, or with type checking off - not C06's subject).
+    if (rc.wrap == W_CACHE) { g_fill = 0x00; g_poison_returned = false; }
     Blk b = env.alloc(ac.fam, ac.wrap, size, ac.via_realloc);
     int gpos = gs ? (gs - 1) / 3 : -1, gval = gs ? (gs - 1) % 3 : 0;
     if (gs) b.p[size + gpos] = (char)(gval == 0 ? b.g0[gpos] + 1 : gval == 1 ? 0x00 : 0xff);
@@ -412,6 +417,117 @@ void pair_case(long idx) {
     const char* pv = rc.kind == K_GLOBAL ? env.poison_verdict(chan, wrapped, desc) : "n/a";
     env.anomalies();
     vf::outcome(vf::fmt("%s<-%s %s %s%s", chan, ALLOC_NAME[ac.fam], CAT[want], pv, ts ? " ts" : ""));
+    if (want != C_NONE) vf::count("nontrivial");
+    vf::count("transitions", 2);
+    if (vf::want_sample()) vf::sample(desc());
+}
+
+// ------------------------------------------------------------------ section pairs2: wrapper stacks of depth <= 2
+// The detector under test (D1) is driven through its API exactly as the global overloads drive it (allocMemory /
+// invalidateMemory + deallocMemory / reallocMemory, separate records for the malloc family), with a wrapper STACK as the
+// allocator argument. The GLOBAL detector is a second private one (D2): a MemoryLeakAllocator inside a stack tracks its
+// memory there, so that D1's reporter sees exactly the releases of the outer level (each level is a release of its own).
+struct Stack { int fam; int outer; int inner; };     // W_NONE/W_ACCT/W_CACHE/W_MLA; inner is the one next to the family
+std::vector<Stack> STACKS;
+std::vector<size_t> P2_SIZES;
+std::string stack_str(const Stack& st) {
+    const char* n[] = {"", "accounting", "string-cache", "leak-allocator"};
+    std::string o;
+    if (st.outer) o += std::string(n[st.outer]) + "(";
+    if (st.inner) o += std::string(n[st.inner]) + "(";
+    o += ALLOC_NAME[st.fam];
+    if (st.inner) o += ")";
+    if (st.outer) o += ")";
+    return o;
+}
+struct Env2 {
+    Reporter rep1, rep2;
+    MemoryLeakDetector* d1; MemoryLeakDetector* d2; MemoryLeakDetector* saved_det; MemoryLeakFailure* saved_rep;
+    std::unique_ptr<MemoryAccountant> acct;
+    std::vector<std::function<void()>> destroy;          // run in reverse order of creation
+    std::map<int, TestMemoryAllocator*> built;
+    explicit Env2(bool typecheck) {
+        arena_reset();
+        g_threadsafe_overloads = false;
+        g_fill = 0x00;       // a string cache in a stack prints unknown buffers with %s (see pair_case)
+        // incoherent stacks (allocated through a MemoryLeakAllocator, released past it) leave records of the inner level
+        // inside returned blocks, and the cache print may be handed a pointer into a returned block: keep them readable
+        g_poison_returned = false;
+        saved_det = MemoryLeakWarningPlugin::getGlobalDetector();
+        saved_rep = MemoryLeakWarningPlugin::getGlobalFailureReporter();
+        d1 = new MemoryLeakDetector(&rep1); d2 = new MemoryLeakDetector(&rep2);
+        MemoryLeakWarningPlugin::setGlobalDetector(d2, &rep2);
+        d1->enable(); d2->enable();
+        if (!typecheck) d1->disableAllocationTypeChecking();
+        acct.reset(new MemoryAccountant);
+    }
+    ~Env2() {
+        for (size_t i = destroy.size(); i-- > 0;) destroy[i]();
+        acct.reset();
+        MemoryLeakWarningPlugin::setGlobalDetector(saved_det, saved_rep);
+        delete d1; delete d2;
+        if (g_exhausted) vf::harness_error("arena exhausted");
+    }
+    TestMemoryAllocator* wrap(int kind, TestMemoryAllocator* orig) {
+        if (kind == W_ACCT) { auto* a = new AccountingTestMemoryAllocator(*acct, orig); destroy.push_back([a]() { delete a; }); return a; }
+        if (kind == W_CACHE) {
+            auto* c = new SimpleStringInternalCache; destroy.push_back([c]() { delete c; });
+            auto* a = new SimpleStringCacheAllocator(*c, orig); destroy.push_back([a]() { delete a; });
+            return a;
+        }
+        if (kind == W_MLA) { auto* a = new MemoryLeakAllocator(orig); destroy.push_back([a]() { delete a; }); return a; }
+        return orig;
+    }
+    // the same (family, outer, inner) always yields the same objects: "both sides" means the very same stack
+    TestMemoryAllocator* stack(const Stack& st) {
+        int key = st.fam * 16 + st.outer * 4 + st.inner;
+        auto it = built.find(key);
+        if (it != built.end()) return it->second;
+        TestMemoryAllocator* a = wrap(st.outer, wrap(st.inner, defalloc(st.fam)));
+        built[key] = a;
+        return a;
+    }
+};
+void pair2_case(long idx) {
+    vf::Radix r(idx);
+    int gs = (int)r.take(4), T = (int)r.take(2);
+    long rn = (long)STACKS.size() + (long)STACKS.size() / 3;       // every stack through delete/delete[]/free, the malloc stacks also through realloc
+    long ri = r.take(rn); Stack as = STACKS[r.take((long)STACKS.size())]; size_t size = P2_SIZES[r.take((long)P2_SIZES.size())];
+    bool via_realloc = ri >= (long)STACKS.size();
+    Stack rs = via_realloc ? Stack() : STACKS[ri];
+    if (via_realloc) { int k = 0; for (const Stack& s : STACKS) if (s.fam == MAL && k++ == ri - (long)STACKS.size()) rs = s; }
+    Env2 env(T != 0);
+    TestMemoryAllocator* aa = env.stack(as);
+    TestMemoryAllocator* ra = env.stack(rs);
+    char* p;
+    vf::ctx("alloc-through-stack");
+    { Window win; p = as.fam == MAL ? env.d1->allocMemory(aa, size, "alloc.c", 12, true) : env.d1->allocMemory(aa, size); }
+    if (!p) vf::harness_error("allocation through a wrapper stack returned NULL");
+    if (env.rep1.calls) vf::harness_error(std::string("report during an allocation: ") + env.rep1.first);
+    Blk b; b.p = p; b.size = size; b.fam = as.fam;
+    for (size_t i = 0; i < size; i++) p[i] = (char)pat(i);
+    memcpy(b.g0, p + size, 3);
+    if (gs) p[size + gs - 1] = (char)(b.g0[gs - 1] ^ 0x04);
+    bool changed = guard_changed(b);
+    const char* chan = via_realloc ? "realloc" : REL_NAME[rs.fam];
+    auto desc = [&]() { return vf::fmt("%zu byte block allocated through %s, released by %s through %s, type checking %s, guard %s", size, stack_str(as).c_str(), chan, stack_str(rs).c_str(), T ? "on" : "off", gs ? vf::fmt("byte %d changed", gs - 1).c_str() : "intact"); };
+    env.rep1.reset();
+    vf::ctx(chan);
+    {
+        Window win;
+        if (via_realloc) env.d1->reallocMemory(ra, p, size + 2, "free.c", 23, true);
+        else { env.d1->invalidateMemory(p); if (rs.fam == MAL) env.d1->deallocMemory(ra, p, "free.c", 22, true); else env.d1->deallocMemory(ra, p); }
+    }
+    Cat want = reference(true, false, as.fam, rs.fam, T != 0, changed);
+    Cat got = classify(env.rep1);
+    std::string c = std::string(chan) + "/wrapper-stack";
+    if (got != want) vf::fail(c + "/want-" + CAT[want] + "/got-" + CAT[got], desc() + vf::fmt(": expected report '%s', observed '%s'%s%s", CAT[want], CAT[got], env.rep1.calls ? " text: " : "", env.rep1.calls ? env.rep1.first : ""));
+    if (env.rep1.calls > 1) vf::fail(c + "/more-than-one-callback", desc() + vf::fmt(": %d callbacks for one release: '%s' then '%s'", env.rep1.calls, env.rep1.first, env.rep1.second));
+    if (env.rep2.calls) vf::count("inner_level_reports");       // releases of the inner level (MemoryLeakAllocator): not judged
+    if (g_foreign_free) vf::count("underlying_interior_free", g_foreign_free);
+    if (g_double_free) vf::count("underlying_double_free", g_double_free);
+    int depth_a = (as.outer != 0) + (as.inner != 0), depth_r = (rs.outer != 0) + (rs.inner != 0);
+    vf::outcome(vf::fmt("%s<-%s %s depth %d/%d", chan, ALLOC_NAME[as.fam], CAT[want], depth_a, depth_r));
     if (want != C_NONE) vf::count("nontrivial");
     vf::count("transitions", 2);
     if (vf::want_sample()) vf::sample(desc());
@@ -623,6 +739,16 @@ int main(int argc, char** argv) {
     vf::info("pairs.bound", std::string("13 allocating channels (new, new[], malloc each plain / under an AccountingTestMemoryAllocator / under a SimpleStringCacheAllocator as current allocator / through a MemoryLeakAllocator; realloc(NULL)) x 15 releasing channels (delete, delete[], free each plain / accounting / string cache; MemoryLeakAllocator::free_memory x 3 families; realloc plain / accounting / string cache) x type checking on/off x {default, thread-safe} global overloads x ") + (TH ? "guard {intact, byte 0/1/2 set to +1/0x00/0xff} x sizes {0..17,4096}" : "guard {intact, byte 0, 1, 2 changed} x sizes {0,1,7,8,9,16,17}"));
     vf::section_index("pairs", (long)PAIR_SIZES.size() * (long)ACH.size() * (long)RCH.size() * 2 * 2 * (long)PAIR_GUARD.size(), pair_case);
     vf::require_outcomes("pairs", 40);
+
+    for (int f = 0; f < 3; f++) {
+        STACKS.push_back({f, W_NONE, W_NONE});
+        for (int i = 1; i < 4; i++) STACKS.push_back({f, W_NONE, i});
+        for (int o = 1; o < 4; o++) for (int i = 1; i < 4; i++) STACKS.push_back({f, o, i});
+    }
+    if (!TH) P2_SIZES = {0, 1, 8, 17}; else P2_SIZES = {0, 1, 7, 8, 9, 16, 17, 4096};
+    vf::info("pairs2.bound", std::string("allocator stacks {family, W(family), W1(W2(family))} with W, W1, W2 over {AccountingTestMemoryAllocator, SimpleStringCacheAllocator, MemoryLeakAllocator} and family over {new, new[], malloc} = 39 stacks on the allocating side x (39 stacks through delete/delete[]/free + the 13 malloc stacks through realloc) on the releasing side (equal stacks are the same objects) x type checking on/off x guard {intact, byte 0, 1, 2 changed} x sizes ") + (TH ? "{0,1,7,8,9,16,17,4096}" : "{0,1,8,17}") + "; detector driven through allocMemory / invalidateMemory+deallocMemory / reallocMemory as the global overloads do; a second private detector is the global one");
+    vf::section_index("pairs2", (long)P2_SIZES.size() * (long)STACKS.size() * ((long)STACKS.size() + (long)STACKS.size() / 3) * 2 * 4, pair2_case);
+    vf::require_outcomes("pairs2", 40);
 
     vf::info("addresses.bound", std::string("bystander block of family {new,new[],malloc} and size {0,1,2,8,17") + (TH ? ",100,4096" : "") + "} x address {NULL, released before, stack, static, never handed out, block of another detector, untracked heap block, p-16..p-1, p+1..p+size+16} x releasing channel {delete, delete[], free, realloc, MemoryLeakAllocator::free_memory x 3} x type checking on/off; afterwards the bystander is released through its own family");
     vf::section_index("addresses", (long)ADDRS.size() * 3 * 7 * 2, addr_case);
